@@ -71,16 +71,16 @@ Definition sub_safe (pre : list event) (n : Z) (optional : bool) : Prop :=
     ((optional = true /\ n = (-1)%Z) \/ (0 <= n <= Z.of_nat g /\ n <= MAX_MATCH_POS)%Z).
 
 (* scoping (feeds C01): foreach only in script kinds that may iterate over the device's plugs, ifon/ifoff only
-   where a plug context exists *)
+   where a plug context exists, setresult only where a diagnostic callback exists, no block is empty *)
 Inductive scoped_block (idx : Z) : bool -> list stmt -> Prop :=
 | sb_nil a : scoped_block idx a []
-| sb_loop a s b r : loop_body s = Some b -> foreach_allowed idx = true ->
+| sb_loop a s b r : loop_body s = Some b -> b <> [] -> foreach_allowed idx = true ->
     scoped_block idx true b -> scoped_block idx a r -> scoped_block idx a (s :: r)
-| sb_if a s b r : if_body s = Some b -> a = true ->
+| sb_if a s b r : if_body s = Some b -> b <> [] -> a = true ->
     scoped_block idx true b -> scoped_block idx a r -> scoped_block idx a (s :: r)
 | sb_other a s r : loop_body s = None -> if_body s = None ->
     (forall p q il, s = SetResult p q il -> no_diag idx = false) ->
     scoped_block idx a r -> scoped_block idx a (s :: r).
 
 Definition scoped_script (sc : Z * list stmt) : Prop :=
-  scoped_block (fst sc) (top_arg (kind_of (fst sc))) (snd sc).
+  snd sc <> [] /\ scoped_block (fst sc) (top_arg (kind_of (fst sc))) (snd sc).
